@@ -75,6 +75,12 @@ fn write_body(
         } else {
             source.to_writer(&mut enc)?;
         }
+
+        // Flush the trailing partial base64 quantum and the last line explicitly,
+        // so that sink errors are reported instead of being swallowed on drop.
+        enc.finish()?;
+        drop(enc);
+        line_wrapper.finish()?;
     }
 
     Ok(())
@@ -123,6 +129,11 @@ impl<W: std::io::Write> Base64Encoder<W> {
             writer,
             &general_purpose::STANDARD,
         ))
+    }
+
+    /// Write out the trailing partial quantum (if any), reporting sink errors.
+    pub(crate) fn finish(&mut self) -> std::io::Result<()> {
+        self.0.finish().map(|_| ())
     }
 }
 impl<W: std::io::Write> std::io::Write for Base64Encoder<W> {
